@@ -39,27 +39,33 @@ vars == <<v1, v2, act>>
 A(op, d, x) == [op |-> op, d |-> d, x |-> x]
 
 (* ---- part 1 ---- *)
-SubsOf(d) == {<<d, g>> : g \in groups} \cup ({<<d, 9>>} \cap alone)
+SubsOf(d) == {<<d, g>> : g \in groups} \cup {k \in alone : k[1] = d}      \* stand-alone subsets are numbered from 9
 Shown(d) == <<d, 0>> \in layers                       \* the dataset's own layer is in the viewer
 Of(d) == {k \in layers : k[1] = d}
 U1 == UNCHANGED v2
+(* effects on the layer set, reused by Trace_Viewer.tla *)
+RemoveEffL(d) == layers' = layers \ Of(d)
+NewGroupEffL(g) == layers' = layers \cup {<<d, g>> : d \in {x \in coll : Shown(x)}}
+RemoveGroupEffL(g) == layers' = {k \in layers : k[2] # g}
+NewAloneEffL(d, x) == layers' = IF Shown(d) THEN layers \cup {<<d, x>>} ELSE layers
+AddDataEffL(d) == layers' = IF Shown(d) THEN layers ELSE layers \cup {<<d, 0>>} \cup SubsOf(d)
 
 Append_(d) == d \notin coll /\ coll' = coll \cup {d} /\ act' = A("Append", d, 0) /\ UNCHANGED <<groups, ngrp, alone, layers, delay, nlay>> /\ U1
-Remove_(d) == d \in coll /\ coll' = coll \ {d} /\ layers' = layers \ Of(d) /\ act' = A("Remove", d, 0)
+Remove_(d) == d \in coll /\ coll' = coll \ {d} /\ RemoveEffL(d) /\ act' = A("Remove", d, 0)
               /\ UNCHANGED <<groups, ngrp, alone, delay, nlay>> /\ U1
 NewGroup == /\ ngrp < MaxGroups /\ ngrp' = ngrp + 1 /\ groups' = groups \cup {ngrp + 1}
-            /\ layers' = layers \cup {<<d, ngrp + 1>> : d \in {x \in coll : Shown(x)}}
+            /\ NewGroupEffL(ngrp + 1)
             /\ act' = A("NewGroup", "-", ngrp + 1) /\ UNCHANGED <<coll, alone, delay, nlay>> /\ U1
-RemoveGroup(g) == g \in groups /\ groups' = groups \ {g} /\ layers' = {k \in layers : k[2] # g}
+RemoveGroup(g) == g \in groups /\ groups' = groups \ {g} /\ RemoveGroupEffL(g)
                   /\ act' = A("RemoveGroup", "-", g) /\ UNCHANGED <<coll, ngrp, alone, delay, nlay>> /\ U1
 NewAlone(d) == /\ d \in coll /\ <<d, 9>> \notin alone /\ alone' = alone \cup {<<d, 9>>}
-               /\ layers' = IF Shown(d) THEN layers \cup {<<d, 9>>} ELSE layers
+               /\ NewAloneEffL(d, 9)
                /\ act' = A("NewAlone", d, 9) /\ UNCHANGED <<coll, groups, ngrp, delay, nlay>> /\ U1
 DeleteAlone(d) == /\ d \in coll /\ <<d, 9>> \in alone /\ alone' = alone \ {<<d, 9>>} /\ layers' = layers \ {<<d, 9>>}
                   /\ act' = A("DeleteAlone", d, 9) /\ UNCHANGED <<coll, groups, ngrp, delay, nlay>> /\ U1
-AddData(d) == /\ delay = 0 /\ d \in coll /\ ~Shown(d) /\ layers' = layers \cup {<<d, 0>>} \cup SubsOf(d)
+AddData(d) == /\ delay = 0 /\ d \in coll /\ ~Shown(d) /\ AddDataEffL(d)
               /\ act' = A("ViewerAddData", d, 0) /\ UNCHANGED <<coll, groups, ngrp, alone, delay, nlay>> /\ U1
-RemoveData(d) == /\ delay = 0 /\ Of(d) # {} /\ layers' = layers \ Of(d)
+RemoveData(d) == /\ delay = 0 /\ Of(d) # {} /\ RemoveEffL(d)
                  /\ act' = A("ViewerRemoveData", d, 0) /\ UNCHANGED <<coll, groups, ngrp, alone, delay, nlay>> /\ U1
 RemoveLayer(k) == /\ delay = 0 /\ k \in layers /\ nlay < MaxLayerOps /\ nlay' = nlay + 1 /\ layers' = layers \ {k}
                   /\ act' = A("RemoveLayer", k[1], k[2]) /\ UNCHANGED <<coll, groups, ngrp, alone, delay>> /\ U1
